@@ -19,3 +19,7 @@ def run(ctx) -> None:
                      ("M3b", decode.rule_M3b), ("N3", varint.rule_N3), ("L5", rule_L5), ("L1", rule_L1), ("L2", rule_L2), ("L3", rule_L3)):
         ctx.rules_run.append(name)
         fn(ctx)
+    # the size prefix is a varint: the writer at the boundary values of every group (a frame of exactly 128 bytes)
+    ctx.rules_run += ["N1", "N8"]
+    varint.rule_N1(ctx)
+    varint.rule_N8(ctx)
